@@ -21,20 +21,26 @@ Cat(s, e) ==
     [] e.ev = "Keepalive" -> "prog"
     [] e.ev = "Update" /\ e.n = 1 -> IF s.st = "Established" /\ CId(e) = s.cur THEN "prog" ELSE "msg"
     [] e.ev = "Enable" -> IF s.admin # "Up" THEN "prog" ELSE "admin"
-    [] e.ev = "Tick" -> IF e.d \in {1, 2, 3, 5} THEN "tick" ELSE "longtick"
+    [] e.ev = "Tick" -> IF e.d \in {1, 2, 3, 5} THEN "tick"
+                        ELSE IF s.st = "Established" /\ e.d = 240 THEN "never" ELSE "longtick"
     [] e.ev \in AdminEvents -> "admin"
     [] OTHER -> "msg"
 
 Wheel == <<"prog", "prog", "prog", "prog", "prog", "tick", "tick", "tick", "longtick", "msg", "msg", "admin">>
 
+(* once established: mostly time passing, interleaved with the messages that restart the hold timer *)
+WheelEst == <<"prog", "prog", "prog", "tick", "tick", "tick", "tick", "longtick", "longtick", "msg", "admin">>
+
 Pick(s) ==
   LET en == Enabled(s)
-      cat == CHOOSE c \in {Wheel[i] : i \in {RandomElement(1..Len(Wheel))}} : TRUE
+      w == IF s.st = "Established" THEN WheelEst ELSE Wheel
+      cat == CHOOSE c \in {w[i] : i \in {RandomElement(1..Len(w))}} : TRUE
       S == {e \in en : Cat(s, e) = cat}
   IN IF S = {} THEN RandomElement(en) ELSE RandomElement(S)
 
 Pairs(o) == UNION {NotifPairs(o[c].msgs) : c \in ConnIds}
 Key(s, e, s2) == <<s.st, s.admin, s.cur, s.ocm, s.parkedConn, s.stuck, s.parkedNotif # <<>>,
+                   IF s.st = "Established" THEN s.holdBy ELSE "", IF s.st = "Established" THEN s.now > s.estHold - s.neg ELSE FALSE,
                    e.ev, e.c, e.kind, e.n, s2.st, s2.admin, s2.deleted, Len(s2.o.wev), Pairs(s2.o)>>
 
 DevOf(h, e, o, h2) ==
